@@ -6,7 +6,10 @@ from .props.c14 import EXTRAS, PATHS, EDGE_SETS, EDGE_SOUNDS
 GOOD_TITLES = ["Renatus", "Re:Zero", "a // b", "[General]", "osu file format v9", "日本語タイトル", "x: y: z", "tab\tin", "Ĉirkaŭ", "C:\\dir\\a"]
 GOOD_PATHS = ["B|{a}:{b}", "L|{a}:{b}|{c}:{d}", "P|{a}:{b}|{c}:{d}", "C|{a}:{b}|{c}:{d}|{e}:{f}", "B|{a}:{b}|{c}:{d}|{c}:{d}|{e}:{f}",
               "B|{a}:{b}|L|{c}:{d}", "L|{a}:{b}|P|{c}:{d}|{e}:{f}|{a}:{d}", "B|{a}:{b}|B|{c}:{d}", "P|{a}:{a}|{b}:{b}", "B3|{a}:{b}|{c}:{d}|{e}:{f}",
-              "C|{a}:{b}|{a}:{b}|{c}:{d}", "L|{a}:{b}|{a}:{b}|{c}:{d}", "B|{a}:{b}|{c}:{d}|{e}:{f}|{a}:{f}|{e}:{b}"]
+              "C|{a}:{b}|{a}:{b}|{c}:{d}", "L|{a}:{b}|{a}:{b}|{c}:{d}", "B|{a}:{b}|{c}:{d}|{e}:{f}|{a}:{f}|{e}:{b}",
+              # control points that coincide with the slider's own position (relative (0,0))
+              "B|{x}:{y}|B|{c}:{d}|{e}:{f}", "L|{x}:{y}|L|{c}:{d}|{e}:{f}", "C|{x}:{y}|{c}:{d}|{e}:{f}", "B|{a}:{b}|{x}:{y}|{c}:{d}",
+              "L|{x}:{y}|{c}:{d}", "B|{x}:{y}|{x}:{y}|{c}:{d}|{e}:{f}", "P|{x}:{y}|{c}:{d}", "B|{a}:{b}|B|{x}:{y}|{c}:{d}"]
 
 
 def num(rng, lo, hi, frac=True):
@@ -132,17 +135,20 @@ def gen_objects(rng, mode, hostile, chronological, tshift=0, integer_times=False
         x, y = rng.randint(0, 512), rng.randint(0, 384)
         nc = rng.choice([0, 0, 4, 4 + 16 * rng.randint(0, 7)])
         snd = rng.choice([0, 2, 4, 8, 6, 14, 1])
-        extra = rng.choice(["0:0:0:0:", "1:2:0:0:", "2:0:0:50:", "0:3:1:70:hit.wav", ""])
+        extra = rng.choice(["0:0:0:0:", "1:2:0:0:", "2:0:0:50:", "0:3:1:70:hit.wav", "", "0:0:3:0:", "1:0:2:0:", "0:2:0:35:", "3:3:7:0:"])
         kind = rng.choice("ccssnh" if mode == 3 else "cccssn")
         tt = repr(t + tshift) if isinstance(t, float) else str(t + tshift)
         if kind == "c":
             o = f"{x},{y},{tt},{1 | nc},{snd},{extra}"
         elif kind == "s":
             p = rng.choice(GOOD_PATHS).format(a=rng.randint(0, 512), b=rng.randint(0, 384), c=rng.randint(0, 512), d=rng.randint(0, 384),
-                                                e=rng.randint(0, 512), f=rng.randint(0, 384))
+                                                e=rng.randint(0, 512), f=rng.randint(0, 384), x=x, y=y)
             if rng.random() < 0.3:
                 from .props.c14 import rand_path
                 p = rand_path(rng)
+                if rng.random() < 0.6:
+                    # put the object on the same small grid, so that control points coincide with the head
+                    x, y = rng.choice([0, 50, 100, 150, 200, 300]), rng.choice([0, 50, 100, 200])
             if rng.random() < hostile:
                 p = rng.choice(PATHS)
             reps = rng.choice([1, 1, 2, 3, 5])
@@ -166,6 +172,14 @@ def gen_objects(rng, mode, hostile, chronological, tshift=0, integer_times=False
         t += rng.choice([0, 100, 250, 1000, 3000, 1 if integer_times else 0.5])
     if not chronological:
         rng.shuffle(objs)
+        if rng.random() < 0.15:
+            # many objects on few distinct times, out of order: stability of the finaliser's sort
+            ties = []
+            times = [rng.choice([0, 250, 1000, 1000.5, 4000]) for _ in range(4)]
+            for i in range(rng.randint(24, 64)):
+                ties.append(f"{i},192,{rng.choice(times)},1,0,0:0:0:0:")
+            objs = objs + ties
+            rng.shuffle(objs)
     return L + objs
 
 
